@@ -41,7 +41,7 @@ func crashSpec(spec *RunSpec, i int) *RunSpec {
 	return c
 }
 
-var c11Styles = []string{"plain", "guarded", "loop", "slot", "shorthand"}
+var c11Styles = []string{"plain", "guarded", "loop", "slot", "first", "shorthand"}
 
 func c11Edge(style, target string, idx int) string {
 	switch style {
@@ -113,15 +113,15 @@ func c11AddFaults(r *Rand, spec *RunSpec) {
 }
 
 // genC11Includes: include digraph over {page, CompA, CompB, CompC}. For index < 2048 the graph over
-// {page, A, B} is enumerated (9 possible edges => 512 graphs x 4 edge styles); beyond that graphs over 4 nodes are drawn.
+// {page, A, B} is enumerated (9 possible edges => 512 graphs x 5 edge styles); beyond that graphs over 4 nodes are drawn.
 func genC11Includes(r *Rand, index int, tier string) *RunSpec {
 	names := []string{"pages/page.vuego", "components/CompA.vuego", "components/CompB.vuego", "components/CompC.vuego"}
 	nn := 3
 	var bits uint32
 	style := ""
-	if index < 2048 {
+	if index < 2560 {
 		bits = uint32(index % 512)
-		style = c11Styles[(index/512)%4]
+		style = c11Styles[(index/512)%5]
 	} else {
 		nn = 4
 		bits = uint32(r.U64()) & 0xffff
@@ -133,7 +133,7 @@ func genC11Includes(r *Rand, index int, tier string) *RunSpec {
 	roots := []int{0}
 	anyShort := false
 	for i := 0; i < nn; i++ {
-		var parts []string
+		var parts, firstParts []string
 		parts = append(parts, fmt.Sprintf(`<i>node%d {{ name }}</i>`, i))
 		for j := 0; j < nn; j++ {
 			if bits&(1<<uint(i*nn+j)) == 0 {
@@ -149,6 +149,12 @@ func genC11Includes(r *Rand, index int, tier string) *RunSpec {
 			if st == "shorthand" {
 				anyShort = true
 			}
+			if st == "first" {
+				// the include is the FIRST node of the file (evalTemplate handles it, not evaluate)
+				firstParts = append(firstParts, c11Edge("plain", names[j], j))
+				uncond[i] = append(uncond[i], j)
+				continue
+			}
 			parts = append(parts, c11Edge(st, names[j], j))
 			// shorthand component tags are only resolved in the top-level template (preProcessNodes); inside an
 			// included component (also when the page itself is included again) the tag is plain markup. A shorthand
@@ -160,7 +166,17 @@ func genC11Includes(r *Rand, index int, tier string) *RunSpec {
 				roots = append(roots, j)
 			}
 		}
-		g.put(names[i], strings.Join(parts, "\n"))
+		if len(firstParts) > 0 {
+			// a file whose first node is an include: when the file is itself included, evalTemplate returns only that
+			// first include's result and drops the rest of the file, so only the first edge is guaranteed to be followed
+			uncond[i] = uncond[i][:0]
+			for j := 0; j < nn; j++ {
+				if strings.Contains(firstParts[0], `"`+names[j]+`"`) {
+					uncond[i] = append(uncond[i], j)
+				}
+			}
+		}
+		g.put(names[i], strings.Join(append(firstParts, parts...), "\n"))
 	}
 	g.put("components/Holder.vuego", `<div class="holder"><slot></slot></div>`)
 	// an unconditional cycle reachable from the page must produce an error
@@ -282,6 +298,9 @@ func genC11Slots(r *Rand) *RunSpec {
 		`<template include="components/Multi.vuego" :items="items">text only</template>`,
 		`<div v-for="item in items"><template include="components/Multi.vuego" :items="items"><p>a</p><p>b</p></template></div>`,
 		`<template include="components/Multi.vuego" :items="items"><template v-slot:x><u>x1</u><u>x2</u></template><p>a</p><p>b</p></template>`,
+		`<template include="components/Multi.vuego" :items="items"><p>outer</p><slot></slot></template>`,
+		`<template include="components/Multi.vuego" :items="items"><template #row><slot name="row"></slot></template><div><slot></slot></div></template>`,
+		`<template include="components/Multi.vuego"><template include="components/Multi.vuego"><slot></slot><b>inner</b></template></template>`,
 	})
 	body := "<main>\n" + use + "\n" + use + "\n</main>"
 	g.put("pages/page.vuego", body)
